@@ -26,9 +26,12 @@ class EnumDef:
     omit_exh: bool = False      # leave out the exhaustive argument (means false)
     native_name: bool = True    # (kept for clarity) storage written as uN
     dead_first: bool = False    # declare the #[cfg(any())] variants before the live ones (they may share discriminants with live ones)
+    alias: str = ''             # fixed type name (e.g. `Q3`: a user type whose name looks like letter + digits)
 
     @property
     def name(self):
+        if self.alias:
+            return self.alias
         import hashlib
         h = hashlib.sha1(repr((self.n, self.exhaustive, self.discs, self.dead, self.spell, self.omit_exh, self.dead_first)).encode()).hexdigest()[:8]
         return f"E{self.n}_{h}"
